@@ -597,7 +597,10 @@ class Edit(Text):
         """
         self._shift_view_to_cursor = bool(focus)
 
-        canv: TextCanvas | CompositeCanvas = super().render(size, focus)
+        # Text.render is wrapped by a cache layer that ignores the focus flag (Text.ignore_focus), but an Edit
+        # is laid out differently when it has the focus (_shift_view_to_cursor): render the text layer
+        # unwrapped, the Edit-level wrapper caches the result under (size, focus)
+        canv: TextCanvas | CompositeCanvas = Text.render.original_fn(self, size, focus)
         if focus:
             canv = CompositeCanvas(canv)
             canv.cursor = self.get_cursor_coords(size)
